@@ -378,7 +378,7 @@ def faulty_device_query_fail():
     import importlib
     from mido.backends.backend import Backend
     real_import = importlib.import_module
-    for exc in (TypeError, OSError, KeyError, ValueError):
+    for exc in (TypeError, OSError, KeyError, ValueError, AttributeError):
         for name, kw, call_api in (('fk/ALSA', {}, None), ('fk', {'api': 'JACK'}, None), ('fk', {}, 'Y'), ('fk/ALSA', {}, 'Y')):
             log = []
             fake = make_module('fk', True, True, log)
@@ -446,6 +446,31 @@ def faulty_device_query_fail():
                                 f'backend was asked for its devices with another API than {want_api!r}: {log}')
             finally:
                 importlib.import_module = real_import
+    # a port class that EXISTS and fails inside (an AttributeError from its own code: a lookup that returned None): that is the
+    # port's failure, not "the module has no such class" - the native IOPort is not replaced by an Input/Output pair
+    for exc in (AttributeError, KeyError, TypeError):
+        log = []
+        fake = make_module('fk', True, True, log)
+
+        class Broken:
+            def __init__(self, name=None, **kwargs):
+                log.append('ctor:IOPort')
+                raise exc('inside the native IOPort')
+        fake.IOPort = Broken
+        importlib.import_module = lambda nm, package=None, fake=fake: fake if nm == 'fk' else real_import(nm, package)
+        try:
+            b = Backend('fk/ALSA', load=True)
+            del log[:]
+            try:
+                b.open_ioport('Unplugged')
+                outcome = 'returned a port'
+            except Exception as e:      # noqa: BLE001
+                outcome = 'raised ' + type(e).__name__
+            if outcome != 'raised ' + exc.__name__ or any(x.startswith('ctor:Input') or x.startswith('ctor:Output') for x in log):
+                return (f'the module has a native IOPort whose constructor raised {exc.__name__}: open_ioport {outcome} and the records '
+                        f'are {log}; the native class is the one to use and its failure the caller\'s to see')
+        finally:
+            importlib.import_module = real_import
     return None
 
 
